@@ -90,7 +90,7 @@ theorem C04_key (o : Obj) (pre post dev : Str × Int) (loc : List (Sent Int × S
     pkgKey o = .ok (Spec.cmpkey o.epoch [o.major, o.minor, o.patch]
       (o.pre.map fun _ => pre) (o.post.map fun _ => post) (o.dev.map fun _ => dev) (o.loc.map fun _ => loc)) := by
   obtain ⟨hne1, hne2⟩ := hne
-  unfold pkgKey Spec.cmpkey
+  unfold pkgKey pkgPre pkgPost pkgDev pkgLoc Spec.cmpkey
   cases hp : o.pre with
   | none =>
     cases hq : o.post with
